@@ -28,9 +28,9 @@ Record tcase := {
 }.
 
 Definition all_variants : list jvariant :=
-  flat_map (fun a => flat_map (fun b => flat_map (fun c => map (fun d =>
-    {| fix_endctx := a; fix_verify := b; fix_panic := c; fix_chunk := d |})
-    [false; true]) [false; true]) [false; true]) [false; true].
+  flat_map (fun a => flat_map (fun b => flat_map (fun c => flat_map (fun d => map (fun e =>
+    {| fix_endctx := a; fix_verify := b; fix_panic := c; fix_chunk := d; fix_clone := e |})
+    [false; true]) [false; true]) [false; true]) [false; true]) [false; true].
 
 Definition res_code (r : option result) : Z :=
   match r with Some RSuccess => 0 | Some RFailure => 1 | Some RKill => 2 | None => 3 end.
@@ -38,9 +38,11 @@ Definition res_code (r : option result) : Z :=
 Definition agree_cfg (v : jvariant) (c : tcase) : bool :=
   let m := run_job v (t_c c) in
   Bool.eqb (o_accepted m) (ob_accepted c)
-  && Bool.eqb (o_alive m) (Z.eqb (ob_live c) 0)
-  && Z.eqb (res_code (o_result m)) (ob_stored c)
-  && (if o_alive m then Z.eqb (res_code (o_result m)) (ob_result c) && Bool.eqb (o_ticket m) (ob_ticket c) else true).
+  && (racy v (t_c c)            (* the data race of F11e: any outcome *)
+      || (Bool.eqb (o_alive m) (Z.eqb (ob_live c) 0)
+          && Z.eqb (res_code (o_result m)) (ob_stored c)
+          && (if o_alive m then Z.eqb (res_code (o_result m)) (ob_result c) && Bool.eqb (o_ticket m) (ob_ticket c)
+              else true))).
 
 Fixpoint gauge_ok (capF capI curF curI : Z) (g : list (bool * Z)) : bool :=
   match g with
